@@ -57,6 +57,24 @@ def _trim_slice(prog: Program, fn: FuncInfo) -> Tuple[int, int]:
         lo = prog.consteval(sl.lower, fn.module) if sl.lower is not None else 0
         hi = prog.consteval(sl.upper, fn.module) if sl.upper is not None else 0
     except NotConst:
+        # a bound computed from the response itself: which of its bytes does it read?
+        reads = []
+        for b in (sl.lower, sl.upper):
+            for n in ast.walk(b) if b is not None else []:
+                if isinstance(n, ast.Subscript) and isinstance(n.value, ast.Name) and n.value.id == param:
+                    reads.append(norm(n))
+        try:
+            lo = prog.consteval(sl.lower, fn.module) if sl.lower is not None else 0
+        except NotConst:
+            lo = None
+        pinned = "%s[%d]" % (param, lo - 1) if lo else None       # the byte count, which the validators compare with 2 x count
+        if reads and any(r != pinned for r in reads):
+            from . import StructuralViolation
+            raise StructuralViolation(
+                ("C12", "C14"), "trim:%s" % fn.cls.name, fn.loc(rets[0]),
+                "trim_response cuts header and checksum off by constant amounts: the payload handed to the sensors is the register block the validator accepted",
+                "%s.trim_response cuts the payload at a position computed from %s of the received frame, which the response validator does not check: a full-length, accepted answer "
+                "can be cut short (or shifted), so sensors of the block are decoded from missing bytes / other registers" % (fn.cls.name, ", ".join(sorted(set(reads)))))
         raise AnalysisError("trim_response slice of %s is not constant" % fn.cls.name)
     if sl.step is not None or lo < 0 or hi > 0:
         raise AnalysisError("trim_response slice of %s has an unexpected shape [%s:%s]" % (fn.cls.name, lo, hi))
